@@ -153,12 +153,12 @@ func main() {
 	case "bench":
 		st, cleanup := engines()[1].mk()
 		e := NewEmu(st)
-		e.Exec(Call{Req: Req{Kind: "create", Parent: "p", Tid: "t", Fams: []FamDef{{Name: "f"}}}, Now: 1000})
+		e.Exec(Call{Req: Req{Kind: "create", Parent: parentA, Tid: "t", Fams: []FamDef{{Name: "f"}}}, Now: 1000})
 		for _, k := range enumUniverse {
-			e.Exec(Call{Req: Req{Kind: "mutate", Table: "p/tables/t", Key: k, Muts: []Mutation{{Kind: "set", Fam: "f", Q: []byte("q"), Ts: 1000, V: k}}}, Now: 1000})
+			e.Exec(Call{Req: Req{Kind: "mutate", Table: tname(parentA, "t"), Key: k, Muts: []Mutation{{Kind: "set", Fam: "f", Q: []byte("q"), Ts: 1000, V: k}}}, Now: 1000})
 		}
 		t0 := time.Now()
-		runEnumBlock(e, "p/tables/t", 300, 200, []int64{0, 2}, "x")
+		runEnumBlock(e, tname(parentA, "t"), 300, 200, []int64{0, 2}, "x")
 		fmt.Println("3200 requests:", time.Since(t0))
 		cleanup()
 		for _, w := range []int{1, 4, 16} {
@@ -167,11 +167,11 @@ func main() {
 				st, cleanup := engines()[1].mk()
 				defer cleanup()
 				e := NewEmu(st)
-				e.Exec(Call{Req: Req{Kind: "create", Parent: "p", Tid: "t", Fams: []FamDef{{Name: "f"}}}, Now: 1000})
+				e.Exec(Call{Req: Req{Kind: "create", Parent: parentA, Tid: "t", Fams: []FamDef{{Name: "f"}}}, Now: 1000})
 				for _, k := range enumUniverse {
-					e.Exec(Call{Req: Req{Kind: "mutate", Table: "p/tables/t", Key: k, Muts: []Mutation{{Kind: "set", Fam: "f", Q: []byte("q"), Ts: 1000, V: k}}}, Now: 1000})
+					e.Exec(Call{Req: Req{Kind: "mutate", Table: tname(parentA, "t"), Key: k, Muts: []Mutation{{Kind: "set", Fam: "f", Q: []byte("q"), Ts: 1000, V: k}}}, Now: 1000})
 				}
-				runEnumBlock(e, "p/tables/t", 300, 200, []int64{0, 2}, "x")
+				runEnumBlock(e, tname(parentA, "t"), 300, 200, []int64{0, 2}, "x")
 			})
 			fmt.Println(w, "workers, 16 blocks of 3200:", time.Since(t1))
 		}
